@@ -33,8 +33,9 @@ ANCHORS = ["featureide_reader.py:FeatureIDEReader._read_feature_model", "feature
            "glencoe_reader.py:GlencoeReader._parse_ast_constraint"]
 NSHARDS = 16
 KNOBS = {"fide": ["attr-order", "mandatory-false", "abstract-false", "graphics", "nary", "no-constraints",
-                  "empty-constraints", "siblings", "compact", "standalone", "description", "hidden-attr"],
-         "fama": ["card-after", "attr-order", "mixed-case", "compact", "set-for-single"],
+                  "empty-constraints", "siblings", "compact", "standalone", "description", "hidden-attr",
+                  "mandatory-in-group"],
+         "fama": ["card-after", "attr-order", "mixed-case", "compact", "set-for-single", "repeat-ctc"],
          "afm": ["spaces", "group-first", "parens", "empty-blocks"],
          "glencoe": ["ids", "key-order", "nary", "notes"]}
 LOG5 = ("NOT", "AND", "OR", "IMPLIES", "EQUIVALENCE")
@@ -52,11 +53,13 @@ def spec_classes(fmt):
         c += [("ctc:" + s, inject.inj_ctc_shape(s, LOG5)) for s in RT.SHAPES] + [("ctc:many", inject.inj_ctc_many(LOG5))]
         c += [("ctc:chain", chain("AND")), ("ctc:chain-or", chain("OR"))]
         c += [(t, inject.inj_rename(t)) for t in ("name:space", "name:xml-special", "name:latin1", "name:cjk", "name:squote")]
+        c += [("name:case-twin", inject.inj_case_twin)]
         return c
     if fmt == "fama":
         c = list(RT.REL_COMMON) + list(RT.REL_CARD) + list(RT.REL_MULTI) + [("rel:card[0..0]", inject.inj_group(0, 0))]
         c += [("ctc:REQUIRES", inject.inj_ctc_op("REQUIRES")), ("ctc:EXCLUDES", inject.inj_ctc_op("EXCLUDES"))]
         c += [(t, inject.inj_rename(t)) for t in ("name:space", "name:xml-special", "name:latin1", "name:dquote")]
+        c += [("name:case-twin", inject.inj_case_twin)]
         return c
     if fmt == "afm":
         return [x for x in RT.AFM().classes()]
